@@ -8,11 +8,11 @@ from C12 import agree as _agree12, canon
 def _erase(o):
     """Through the Reader a ParseError is only visible as the TEXT of an io::Error of kind Other; C04 asks for "an error
     for a malformed or blank line", not for a particular wording, so every such error is one class here (the ParseError
-    variants themselves are compared by C12 on `parse` cases, where they are API).  An io::Error of kind InvalidData
-    (a line that is not UTF-8) stays a class of its own: its kind is API."""
+    variants themselves are compared by C12 on `parse` cases, where they are API).  Neither does it fix the
+    io::ErrorKind a parse error is wrapped in, so an error is an error."""
     if isinstance(o, list):
-        if len(o) == 2 and o[0] == 'err' and o[1] != 'io-invalid-data':
-            return ['err', 'parse']
+        if len(o) == 2 and o[0] == 'err':
+            return ['err', 'some']
         return [_erase(x) for x in o]
     return o
 
